@@ -267,6 +267,32 @@ func (e *vEpoch) writeLegacyConfig(o vkConfigOpts) (string, error) {
 	return p, nil
 }
 
+// vkPadForTxPayload searches the instruction-data padding for which a metadata-less transaction object's CAR
+// section payload (CID bytes + node bytes) is exactly target bytes (the varint-width boundaries 128, 16384 are
+// where section-length arithmetic goes wrong). The object is generated and measured, nothing is assumed.
+func vkPadForTxPayload(target int) (int, bool) {
+	measure := func(pad int) int {
+		s := cargen.Shape{Epoch: 1, Blocks: []cargen.BlockShape{{SlotOffset: 5, Blocktime: 1_600_000_000,
+			Entries: [][]cargen.TxShape{{{Accounts: []int{0}, TxPad: pad, NoMeta: true}}}}}}
+		t := cargen.Generate(s)
+		o := t.Objects[t.Txs[0].Obj]
+		return len(o.Cid.Bytes()) + len(o.Data)
+	}
+	base := measure(0)
+	if base > target {
+		return 0, false
+	}
+	pad := target - base
+	for tries := 0; tries < 40 && pad >= 0; tries++ {
+		got := measure(pad)
+		if got == target {
+			return pad, true
+		}
+		pad -= got - target
+	}
+	return 0, false
+}
+
 // vkRequestWatchdog, when non-zero, bounds every request driven through vkHTTP / vkWatch: the call runs in
 // a goroutine of its own and a call that has not returned after this long is issued a second time; only
 // when the second one does not return either is it reported (vkNoAnswer). The bound is generous on purpose
